@@ -108,11 +108,25 @@ pub fn plan_run(verif_seed: u64, run_index: u64, lim: &Limits) -> Plan {
     let mut rng = Rng::new(mix(verif_seed, run_index, 0xC09));
     // later additions draw from a stream of their own, so that the rest of a plan is what it was
     let mut rng_bb = Rng::new(mix(verif_seed, run_index, 0xBB09));
-    let fav_bb = rng_bb.chance(0.35);
+    let fav_bb = rng_bb.chance(0.5);
     // a few runs are large: thresholds on the number of cells (block sizes,
     // "small input" shortcuts) are invisible below them
     let big = lim.max_n >= 200 && rng.chance(0.015);
-    let glim = if big {
+    // and some are of medium size with all kinds of preemption on: work queues and block sizes of a
+    // changed tree typically start to matter at a few hundred cells (e.g. 64 cells x (workers + 2))
+    // development knob (never set by the checks): VERIF_DEV_FOCUS=<op name> makes every run a
+    // medium-size one whose ops are all of that kind, to measure a catch rate per run
+    let focus: Option<OpKind> = std::env::var("VERIF_DEV_FOCUS").ok().and_then(|s| OpKind::from_name(&s));
+    let medium = !big && lim.max_n >= 200 && (rng_bb.chance(0.07) || focus.is_some());
+    let glim = if medium {
+        let n = 200 + rng_bb.below(700) as usize;
+        GenLimits {
+            max_n: n,
+            min_n: n * 3 / 4,
+            max_n_3d: 450,
+            dim_weights: [2, 5, 3],
+        }
+    } else if big {
         let n = 260 + rng.below(2800) as usize;
         GenLimits {
             max_n: n,
@@ -129,6 +143,9 @@ pub fn plan_run(verif_seed: u64, run_index: u64, lim: &Limits) -> Plan {
     let mut case = gen_case(&mut rng, &glim);
     if big {
         case.family = format!("big:{}", case.family);
+    }
+    if medium {
+        case.family = format!("medium:{}", case.family);
     }
     // pools: small ones are cheap and already reach every ordering of few
     // leaves; big ones exercise deep splitting
@@ -164,7 +181,13 @@ pub fn plan_run(verif_seed: u64, run_index: u64, lim: &Limits) -> Plan {
         cases.push(v);
     }
     let ncase = cases.len() as u64;
-    let n_ops = if big { 2 } else { 2 + rng.below(5) as usize };
+    let n_ops = if big {
+        2
+    } else if medium {
+        2 + rng.below(2) as usize
+    } else {
+        2 + rng.below(5) as usize
+    };
     let mut history: Vec<HistOp> = vec![];
     // swarm: a run favours one split / sched mode but mixes in others
     let fav_split = *rng.pick(SPLITS);
@@ -177,6 +200,7 @@ pub fn plan_run(verif_seed: u64, run_index: u64, lim: &Limits) -> Plan {
         } else {
             (*rng.pick(ALL_OPS), rng.below(ncase) as usize)
         };
+        let op = focus.unwrap_or(op);
         let with = if rng.chance(0.12) { Some((*rng.pick(ALL_OPS), rng.below(ncase) as usize)) } else { None };
         let split = if rng.chance(0.6) { fav_split } else { *rng.pick(SPLITS) };
         let sched = if rng.chance(0.6) { fav_sched } else { *rng.pick(SCHEDS) };
@@ -186,7 +210,7 @@ pub fn plan_run(verif_seed: u64, run_index: u64, lim: &Limits) -> Plan {
             split,
             sched,
             hooks: lim.allow_hooks && rng.chance(0.6),
-            bb: lim.allow_hooks && !big && rng_bb.chance(if fav_bb { 0.7 } else { 0.08 }),
+            bb: lim.allow_hooks && rng_bb.chance(if big { 0.2 } else if fav_bb || medium { 0.8 } else { 0.15 }),
             fault: if rng_bb.chance(0.07) { Some((rng_bb.below(1 << 20) as u32, rng_bb.below(12) as u32)) } else { None },
             case,
             with,
